@@ -102,7 +102,7 @@ func (en *Engine) functionsFor(prop string) []string {
 	var keys []string
 	for _, k := range sortedKeys(en.cs.Funcs) {
 		ct := en.cs.Funcs[k]
-		if ct.Trusted || ct.Inline {
+		if (ct.Trusted && len(ct.Effects) == 0) || ct.Inline {
 			continue
 		}
 		serves := hasProp(ct.Props, prop) || hasProp(ct.NoPanicProps, prop)
@@ -253,7 +253,7 @@ func runCheck(opts checkOpts) (int, map[string]any) {
 		if ct := en.cs.Funcs[k]; len(ct.Effects) > 0 {
 			effRes := en.checkEffects(fn, ct, opts.prop)
 			effAll = append(effAll, effRes...)
-			if len(ct.Requires)+len(ct.Ensures)+len(ct.LoopInv) == 0 {
+			if len(ct.Requires)+len(ct.Ensures)+len(ct.LoopInv) == 0 || ct.Trusted {
 				continue
 			}
 		}
